@@ -120,6 +120,9 @@ type Parser struct {
 
 	// depth is the number of expressions we are currently inside.
 	depth int
+
+	// chain is the number of "else if" links we are currently inside.
+	chain int
 }
 
 // MaxDepth is the deepest nesting of expressions (brackets, blocks,
@@ -128,6 +131,11 @@ type Parser struct {
 // a script such as a megabyte of "(" would exhaust the (golang) stack, which
 // cannot be recovered from and terminates the host application.
 const MaxDepth = 1000
+
+// MaxChain is the longest chain of "else if" the parser accepts.  Each link
+// is parsed, compiled and printed by one more level of recursion, and the
+// compiler refuses programs nested more deeply than this anyway.
+const MaxChain = 10000
 
 // New returns a new parser.
 //
@@ -739,6 +747,17 @@ func (p *Parser) parseIfExpression() ast.Expression {
 		if p.peekTokenIs(token.IF) {
 
 			p.nextToken()
+
+			// Refuse to chain without limit.
+			p.chain++
+			defer func() { p.chain-- }()
+			if p.chain > MaxChain {
+				if p.chain == MaxChain+1 {
+					msg := fmt.Sprintf("if statements are chained more than %d deep around %s", MaxChain, p.curToken.Position())
+					p.errors = append(p.errors, msg)
+				}
+				return nil
+			}
 
 			expression.Alternative = &ast.BlockStatement{
 				Statements: []ast.Statement{
